@@ -1,6 +1,6 @@
 CONSTANTS
   Ends <- EndsDef
-  Nums = {1, 2, 3, 4, 5, 8, 11}
+  Nums <- @@Nums@@
 SPECIFICATION Spec
 INVARIANTS Laws Emit
 CHECK_DEADLOCK FALSE
